@@ -284,6 +284,24 @@ func randProg(r *rand.Rand) sysProg {
 		}
 	}
 	p = append(p, out)
+	// the order of the module list is free as long as dependencies come first: shuffle independent neighbours, so that a
+	// later-starting module can stand before an earlier-starting one in the same execution layer
+	if r.Intn(2) == 0 {
+		dependsOn := func(b, a sysMod) bool {
+			for _, in := range b.Inputs {
+				if (in.K == "map" || in.K == "store") && in.V == a.Name {
+					return true
+				}
+			}
+			return len(b.Filter) == 2 && b.Filter[0] == a.Name
+		}
+		for k := 0; k < 2*len(p); k++ {
+			i := r.Intn(len(p) - 1)
+			if i+1 < len(p)-1 && !dependsOn(p[i+1], p[i]) { // the output module stays last
+				p[i], p[i+1] = p[i+1], p[i]
+			}
+		}
+	}
 	return p
 }
 
@@ -883,7 +901,7 @@ func runSystem(a *args) error {
 			runFaults(a, r, root, i)
 			continue
 		}
-		kind := []string{"strategies", "subsets", "resume", "forks", "sparse"}[i%5]
+		kind := []string{"strategies", "subsets", "resume", "forks", "sparse", "layers"}[i%6]
 		if want != "" {
 			kind = want
 		}
@@ -893,6 +911,10 @@ func runSystem(a *args) error {
 		}
 		if kind == "sparse" {
 			runSparseCache(a, r, root, i)
+			continue
+		}
+		if kind == "layers" {
+			runLayers(a, r, root, i)
 			continue
 		}
 		prog := randProg(r)
@@ -912,8 +934,10 @@ func runSystem(a *args) error {
 				cfg.Label = fmt.Sprintf("strategies/%d", k)
 				if paired && k == 0 {
 					cfg.Prod, cfg.Out = true, "m_src"
-					if uint64(cfg.Start) < prog[0].Init {
-						cfg.Start = int64(prog[0].Init)
+					for _, m := range prog {
+						if m.Name == "m_src" && uint64(cfg.Start) < m.Init {
+							cfg.Start = int64(m.Init)
+						}
 					}
 					cfg.Stop = uint64(cfg.Start) + 2*seg + uint64(r.Intn(8))
 					if cfg.Stop > 48 { // the reference execution of the specification covers blocks 0..48
@@ -975,6 +999,32 @@ func runSystem(a *args) error {
 				for _, f := range all {
 					if r.Intn(2) == 0 {
 						keep[f] = true
+					}
+				}
+				if k == 0 && r.Intn(2) == 0 {
+					// eviction with holes: everything is kept except every other full snapshot of each store (missing, present,
+					// missing, present ...) and the cached outputs of the output module
+					for f := range keep {
+						keep[f] = true
+					}
+					for _, f := range all {
+						keep[f] = true
+					}
+					seenKV := map[string]int{}
+					for _, f := range all {
+						parts := strings.Split(f, "/")
+						if len(parts) < 4 {
+							continue
+						}
+						if parts[2] == "states" && !strings.Contains(parts[3], ".partial") {
+							seenKV[parts[1]]++
+							if seenKV[parts[1]]%2 == 1 {
+								keep[f] = false
+							}
+						}
+						if parts[2] == "outputs" && env.hashes[parts[1]] == "out" {
+							keep[f] = false
+						}
 					}
 				}
 				if k == 4 {
@@ -1591,6 +1641,51 @@ func runSparseCache(a *args, r *rand.Rand, root string, i int) {
 	c3 := c2
 	c3.Prod, c3.Label = false, "strategies/sparse-dev"
 	emitRun(a, env, c3, "", true)
+	os.RemoveAll(env.dir)
+}
+
+// runLayers: modules of ONE execution layer that start at different blocks (in both list orders), read by the output mapper on
+// every block; linear, back-filled and mixed requests whose ranges and segments cut across the later initial block.
+func runLayers(a *args, r *rand.Rand, root string, i int) {
+	body := func(kind string) vbody {
+		return vbody{Kind: kind, Emit: always(), FailAt: -1, Terms: []vterm{}, Ops: []vop{}, Keys: []vkey{}}
+	}
+	late := uint64(3 + r.Intn(9))
+	src := sysMod{Name: "m_src", Kind: "map", Inputs: []ainput{{K: "source", V: blockType}}, Filter: []any{}, Body: body("map")}
+	src.Body.Terms = []vterm{{T: "num", C: 1}}
+	mk := func(name string, init uint64, key int) sysMod {
+		m := sysMod{Name: name, Kind: "store", Init: init, Inputs: []ainput{{K: "map", V: "m_src"}}, Filter: []any{}, Body: body("store")}
+		m.Body.Pol, m.Body.VT = "add", "int64"
+		m.Body.Ops = []vop{{Op: "w", Base: uint64(key), Step: 0, Val: []vterm{{T: "const", C: 1}}, When: always()}}
+		return m
+	}
+	sa, sb := mk("st1", 0, 0), mk("st2", late, 0)
+	if r.Intn(2) == 0 {
+		sa.Init, sb.Init = late, 0
+	}
+	out := sysMod{Name: "out", Kind: "map", Inputs: []ainput{{K: "map", V: "m_src"}, {K: "store", V: "st1", Mode: "get"}, {K: "store", V: "st2", Mode: "get"}}, Filter: []any{}, Body: body("map")}
+	out.Body.Terms = []vterm{{T: "get", I: 1, C: 1, Key: "a", How: "last", Num: true}, {T: "get", I: 2, C: 100, Key: "a", How: "last", Num: true}}
+	prog := sysProg{src, sa, sb, out}
+	if r.Intn(3) == 0 { // a third module of the same layer
+		sc := mk("st3", uint64(r.Intn(int(late))), 1)
+		out.Inputs = append(out.Inputs, ainput{K: "store", V: "st3", Mode: "get"})
+		out.Body.Terms = append(out.Body.Terms, vterm{T: "get", I: 3, C: 10000, Key: "ab", How: "last", Num: true})
+		prog = sysProg{src, sa, sc, sb, out}
+	}
+	seg := []uint64{2, 3, 4, 5, 7}[r.Intn(5)]
+	env := newSysEnv(filepath.Join(root, fmt.Sprintf("layers%d", i)), prog)
+	os.MkdirAll(env.dir, 0755)
+	a.emit(map[string]any{"ev": "prog", "prog": prog, "seg": seg, "scenario": i})
+	for k := 0; k < 4; k++ {
+		cfg := runCfg{Prod: k%2 == 1, Start: int64(r.Intn(int(late) + 3)), Seg: seg, Workers: 1 + r.Intn(3), LibOK: true, Label: fmt.Sprintf("strategies/layers-%d", k)}
+		cfg.Stop = uint64(cfg.Start) + 3 + uint64(r.Intn(16))
+		cfg.Lib = uint64(cfg.Start) + uint64(r.Intn(20))
+		if r.Intn(2) == 0 {
+			cfg.Order = r.Int63n(1<<30) + 1
+		}
+		cfg.MergeHold = []int{0, 1, 3}[r.Intn(3)]
+		emitRun(a, env, cfg, "", true)
+	}
 	os.RemoveAll(env.dir)
 }
 
